@@ -219,7 +219,8 @@ def check_shape(c, repo):
                     while isinstance(root, ast.Subscript):
                         root = root.value
                         depth += 1
-                    if isinstance(root, ast.Attribute) and root.attr == 'w' and is_name(root.value, 'self'):
+                    if (isinstance(root, ast.Attribute) and root.attr == 'w' and is_name(root.value, 'self')) or \
+                            (isinstance(root, ast.Name) and depth >= 1 and ctext(root, f, stale_ok=True) == 'self.w'):
                         n_store += 1
                         if depth == 0:
                             c.check(f.name == '__init__', f, st, 'the grid object is created only by the constructor', kind='ast', tag='w-rebind:' + f.qual)
@@ -231,7 +232,8 @@ def check_shape(c, repo):
                 root = st.func.value
                 while isinstance(root, ast.Subscript):
                     root = root.value
-                if isinstance(root, ast.Attribute) and root.attr == 'w' and is_name(root.value, 'self'):
+                if (isinstance(root, ast.Attribute) and root.attr == 'w' and is_name(root.value, 'self')) or \
+                        (isinstance(root, ast.Name) and ctext(root, f, stale_ok=True) == 'self.w'):
                     c.bad(f, st, 'the grid is resized with %s()' % st.func.attr, kind='ast', tag='w-mutator:' + f.qual)
     c.need(n_store >= 4, 'expected >= 4 stores into the grid, found %d' % n_store)
     # constructor shape
